@@ -62,6 +62,7 @@ type c20Scenario struct {
 	SlowEvery  int    `json:"consumer_slow_every"` // 0 = fast consumer
 	SlowFor    string `json:"consumer_slow_for"`
 	StopAtCancel bool `json:"consumer_stops_at_cancel,omitempty"` // nobody drains the error channel after the cancel
+	DeadlineEnd  bool `json:"ctx_ends_by_deadline,omitempty"`      // the scan context reports context.DeadlineExceeded when it ends (a scan bounded by a deadline)
 	StallAfter   int  `json:"consumer_stalls_after,omitempty"`    // the consumer stops after this many errors, cancels 50 ms later and walks away
 }
 
@@ -360,7 +361,20 @@ func c20Generate(p picker, o Opts) c20Scenario {
 			sc.Variant = append(sc.Variant, p.n("v", 12))
 		}
 	}
+	// last draw of the scenario (earlier draws keep their meaning): the context ends by a deadline
+	sc.DeadlineEnd = p.pct("deadline-end", 25)
 	return sc
+}
+
+// c20DeadlineCtx is a scan context that ends like one bounded by a deadline: same Done channel,
+// Err() = context.DeadlineExceeded once it is done.
+type c20DeadlineCtx struct{ context.Context }
+
+func (d c20DeadlineCtx) Err() error {
+	if d.Context.Err() != nil {
+		return context.DeadlineExceeded
+	}
+	return nil
 }
 
 // ctxDoneIf returns ctx.Done() if on, else a nil channel (never ready).
@@ -387,7 +401,11 @@ func runC20(t *testing.T, c simrt.Chooser, o Opts) *Out {
 	res := simrt.Execute(t, simrt.Config{Chooser: c, Trace: o.Trace, SigintStep: sc.CancelStep, MaxSteps: 200000, MaxStepsNoTime: 20000},
 		nil,
 		func(r *simrt.Run) {
+			var ctx context.Context
 			ctx, cancel := context.WithCancel(context.Background())
+			if sc.DeadlineEnd {
+				ctx = c20DeadlineCtx{ctx}
+			}
 			rd = &c20Reader{ctx: ctx, cancel: cancel, script: script, variant: sc.Variant, cancelCall: sc.CancelCall, run: r}
 			r.RegisterSignal(func() {
 				rd.callsAtCanc = rd.calls
